@@ -51,6 +51,7 @@ int save_context (error_context_t * econ) {
   econ->save_sp = sp;           /* stack pointer */
   econ->save_csp = csp;         /* control stack pointer */
   econ->save_num_varargs = num_varargs;
+  save_object_limits (&econ->save_load_depth, &econ->save_restrict_destruct);
   econ->save_context = current_error_context;
 
   current_error_context = econ;
@@ -104,6 +105,8 @@ void restore_context (error_context_t * econ) {
 
   command_giver = econ->save_command_giver;
   num_varargs = econ->save_num_varargs; /* expansions made by the aborted evaluation are gone with its stack */
+  /* load_object()/destruct_object() frames above the save point are gone too (error() and throw() alike) */
+  restore_object_limits (econ->save_load_depth, econ->save_restrict_destruct);
   DEBUG_CHECK (csp < econ->save_csp, "csp is below econ->csp before unwinding.\n");
   if (csp > econ->save_csp)
     {
